@@ -170,6 +170,12 @@ pub struct ConnCtl {
     pub cmds: VecDeque<ConnCmd>,
     pub waker: Option<Waker>,
     pub done: bool,
+    /// the connection's ping handle, reachable by the engine after the connection task has ended (C07 probes)
+    pub pp: Option<Rc<RefCell<Option<h2::PingPong>>>>,
+    /// keep the finished connection object alive instead of dropping it (an accept loop that joins its handlers
+    /// before returning does exactly that); the engine drops it at the very end
+    pub keep_conn: bool,
+    pub kept: Vec<Box<dyn std::any::Any>>,
 }
 
 pub type ConnCtlRef = Rc<RefCell<ConnCtl>>;
@@ -544,7 +550,7 @@ pub struct ClientShared {
     pub pp: Option<h2::PingPong>,
 }
 
-async fn handle_ping(ctx: Ctx, pp: Rc<RefCell<Option<h2::PingPong>>>) {
+pub async fn handle_ping(ctx: Ctx, pp: Rc<RefCell<Option<h2::PingPong>>>) {
     let mut p = match pp.borrow_mut().take() {
         Some(p) => p,
         None => return,
@@ -564,6 +570,7 @@ async fn handle_ping(ctx: Ctx, pp: Rc<RefCell<Option<h2::PingPong>>>) {
 /// The task owning the client `Connection`.
 pub async fn client_conn_task(ctx: Ctx, mut conn: client::Connection<PipeEnd, Bytes>, ctl: ConnCtlRef, hooks: crate::mon::snap::SnapHook) {
     let pp = Rc::new(RefCell::new(conn.ping_pong()));
+    ctl.borrow_mut().pp = Some(pp.clone());
     let id = call(&ctx, Op::ConnDone, 0, 0, 0, 0, false, None);
     let mut dropped = false;
     let r = poll_fn(|cx| {
@@ -610,7 +617,11 @@ pub async fn client_conn_task(ctx: Ctx, mut conn: client::Connection<PipeEnd, By
         ret(&ctx, Op::ConnDone, id, 0, 0, 0, 0, true, Res::End, None);
     } else {
         ret(&ctx, Op::ConnDone, id, 0, 0, 0, 0, false, res_of(&r), None);
-        drop_caught(conn, "connection");
+        if ctl.borrow().keep_conn {
+            ctl.borrow_mut().kept.push(Box::new(conn));
+        } else {
+            drop_caught(conn, "connection");
+        }
     }
 }
 
@@ -953,6 +964,7 @@ pub async fn server_main(ctx: Ctx, io: PipeEnd, cfg: EpCfg, specs: Vec<StreamSpe
         }
     };
     let pp = Rc::new(RefCell::new(conn.ping_pong()));
+    ctl.borrow_mut().pp = Some(pp.clone());
     let cid = call(&ctx, Op::ConnDone, 0, 0, 0, 0, false, None);
     let mut accepted = 0usize;
     let mut dropped = false;
@@ -1039,7 +1051,11 @@ pub async fn server_main(ctx: Ctx, io: PipeEnd, cfg: EpCfg, specs: Vec<StreamSpe
         ret(&ctx, Op::ConnDone, cid, 0, 0, 0, 0, true, Res::End, None);
     } else {
         ret(&ctx, Op::ConnDone, cid, 0, 0, 0, 0, false, res_of(&r), None);
-        drop_caught(conn, "connection");
+        if ctl.borrow().keep_conn {
+            ctl.borrow_mut().kept.push(Box::new(conn));
+        } else {
+            drop_caught(conn, "connection");
+        }
     }
 }
 
